@@ -2445,7 +2445,7 @@ class Processor:
                         yield node_coord
                     continue
 
-                if next_coord.node is None:
+                if next_coord.node is None and depth + 1 >= len(segments):
                     self.logger.debug((
                         "Relaying a None element <{}>{} from the data."
                         ).format(segment_type, except_segment),
